@@ -323,8 +323,9 @@ func sDurable(c *Ctx, rule string) {
 	// leader append
 	if fn := c.Fn(rule, "(*Raft).dispatchLogs"); fn != nil {
 		r := c.Run(&engine.Automaton{Fn: fn, Tracks: []engine.Track{
-			engine.Event("store", c.P.IsCallTo(engine.Is("iface:LogStore.StoreLogs"))),
+			engine.Event("store", c.P.IsCallTo(engine.Is("iface:LogStore.StoreLogs")), "errLoop"),
 			predErr("storeErr", "recv.logs.StoreLogs("),
+			engine.PredRel("errLoop", "idx(range)", "len(p1)", engine.LT),
 			engine.Event("respondErr", func(in ssa.Instruction) bool {
 				cc := engine.CallCommonOf(in)
 				return cc != nil && c.P.CalleeName(cc) == "(*deferError).respond" && strings.HasPrefix(c.P.Arg(in, 0), "recv.logs.StoreLogs(")
@@ -341,16 +342,21 @@ func sDurable(c *Ctx, rule string) {
 			}
 		}
 		for i, ret := range engine.ReturnsOf(fn) {
-			c.RequireAt(r, rule, fmt.Sprintf("dispatchLogs:return#%d", i+1), ret, "on a failed store every future is answered with the error and the leader steps down", func(v engine.View) bool {
+			c.RequireAt(r, rule, fmt.Sprintf("dispatchLogs:return#%d", i+1), ret, "on a failed store the error loop over all futures was run to its end and the leader steps down", func(v engine.View) bool {
 				if !v.Seen("store") {
 					return false
 				}
 				if v.T("storeErr") {
-					return v.Seen("respondErr") && v.Seen("follower")
+					return v.F("errLoop") && v.Seen("follower")
 				}
 				return v.F("storeErr")
 			})
 		}
+		rangeBodyAlways(c, rule, fn, "dispatchLogs:error-loop-answers-every-future", "p1", func(in ssa.Instruction) bool {
+			cc := engine.CallCommonOf(in)
+			return cc != nil && c.P.CalleeName(cc) == "(*deferError).respond" && strings.HasPrefix(c.P.Arg(in, 0), "recv.logs.StoreLogs(") &&
+				strings.HasPrefix(c.P.D(engine.RecvValue(in)), "val(range p1)")
+		}, "every iteration of the range over the dispatched futures answers that future with the StoreLogs error")
 		// leader counts itself with the index it stored
 		for _, s := range c.P.CallsIn(fn, engine.Is("(*commitment).match")) {
 			a0, a1 := c.P.Arg(s.Instr, 0), c.P.Arg(s.Instr, 1)
@@ -522,9 +528,52 @@ func sInstallDurable(c *Ctx, rule string) {
 func sDelete(c *Ctx, rule string) {
 	sites := c.P.CallsEverywhere(engine.Is("iface:LogStore.DeleteRange"))
 	c.WhoMay(rule, "call LogStore.DeleteRange", sites, map[string]string{
-		"(*Raft).appendEntries":           "suffix truncation on a term conflict",
-		"(*Raft).compactLogsWithTrailing": "compaction below the snapshot / wholesale reset on monotonic stores",
-		"RecoverCluster":                  "operator override (excepted by the property)",
-		"(*LogCache).DeleteRange":         "LogStore implementation delegating to its backend",
+		"(*Raft).appendEntries":                "suffix truncation on a term conflict",
+		"(*Raft).compactLogsWithTrailing":      "compaction below the snapshot / wholesale reset on monotonic stores",
+		"RecoverCluster":                       "operator override (excepted by the property)",
+		"(*LogCache).DeleteRange":              "LogStore implementation delegating to its backend",
+		"(*MockMonotonicLogStore).DeleteRange": "test helper store (testing.go) delegating to its backend",
 	})
+}
+
+// rangeBodyAlways finds the range loops over the slice `ranged` in fn whose
+// body contains the event, and checks that every path through the body, from
+// its first block back to the loop test, executes the event.
+func rangeBodyAlways(c *Ctx, rule string, fn *ssa.Function, key, ranged string, ev func(ssa.Instruction) bool, require string) {
+	found := 0
+	engine.EachInstr(fn, func(in ssa.Instruction) {
+		ifi, ok := in.(*ssa.If)
+		if !ok {
+			return
+		}
+		cd := c.P.CondOf(ifi.Cond)
+		isLoop := false
+		if cd.IsRel && cd.X == "idx(range)" && cd.Y == "len("+ranged+")" && cd.EdgeOrd(true) == engine.LT {
+			isLoop = true
+		}
+		if !cd.IsRel && cd.B == "more(range "+ranged+")" && !cd.Neg {
+			isLoop = true
+		}
+		if !isLoop {
+			return
+		}
+		body := ifi.Block().Succs[0]
+		// does the body region (until back at the test) contain the event?
+		r := c.Run(&engine.Automaton{Fn: fn, StartBlock: body, Tracks: []engine.Track{engine.Event("ev", ev)},
+			StopAt: func(x ssa.Instruction) bool { return x == ssa.Instruction(ifi) }})
+		any := false
+		for _, v := range r.StatesAt(ifi) {
+			if v.Seen("ev") {
+				any = true
+			}
+		}
+		if !any {
+			return
+		}
+		found++
+		c.RequireAt(r, rule, key, ifi, require, func(v engine.View) bool { return v.Seen("ev") })
+	})
+	if found == 0 {
+		c.Bad(rule, key, c.P.Pos(fn.Pos()), require, "no range loop over "+ranged+" containing the effect")
+	}
 }
